@@ -33,6 +33,9 @@ def batches_of(label, symbols, params, locals_groups, result, n, inputs, imports
         for k, seq in enumerate(part):
             m.add_func(params, result, [(c, TCH[t]) for c, t in locals_groups], encode_body(seq), export='f%d' % k)
             cases.append(Case('f%d' % k, params, result or 'v', 0, -1, enum_cf.describe(seq)))
+        # bodies may contain (dead) calls of functions 5 and 11 of their module: keep every module at 12 or more functions of this signature
+        for k in range(len(part), 12):
+            m.add_func(params, result, [(c, TCH[t]) for c, t in locals_groups], encode_body(part[0]))
         yield Batch(m.encode(), cases, [('explicit', inputs)], [], imports)
 
 
@@ -56,7 +59,8 @@ def main(tier):
     plans.append(('full', S, p, [(1, 'i'), (1, 'I')], r, nfull, in_ii, mark, False))
     S2, p2, l2, r2 = sigma_ctl()
     plans.append(('ctl', S2, p2, [], r2, nctl, in_ii, [], False))
-    groupings = [((1, 'f'), (2, 'F'), (1, 'i')), ((2, 'I'), (1, 'f'), (1, 'F')), ((1, 'F'), (1, 'I'), (1, 'f'), (1, 'i'))]
+    # local declaration groupings; the second one starts with an EMPTY group of another type (count 0 is a valid encoding)
+    groupings = [((1, 'f'), (2, 'F'), (1, 'i')), ((0, 'i'), (2, 'I'), (0, 'F'), (1, 'f'), (1, 'F')), ((1, 'F'), (1, 'I'), (1, 'f'), (1, 'i'))]
     for T in 'IfF':
         for gi, g in enumerate(groupings if tier == 'thorough' else groupings[:2]):
             S3, p3, l3, r3, g3 = sigma_typed(T, 'iI', g)
@@ -124,7 +128,7 @@ def main(tier):
     chk.cov['alphabets'] = per
     chk.cov['rule'] = ('validator-driven DFS enumerates every valid function body with <= N instructions over each alphabet (full: 33 symbols, '
                        'ctl: 13 symbols, typed-*: carried value of type i64/f32/f64 with mixed-type params and locals in several declaration '
-                       'groupings; ctx:*: every valid filling of <= N instructions over a 23-symbol alphabet (incl. br_table with an empty label vector) of six fixed contexts - dead code inside a block followed by live code, dead code in '
+                       'groupings; ctx:*: every valid filling of <= N instructions over a 25-symbol alphabet (incl. br_table with an empty label vector and dead calls whose index byte is the opcode of else / end) of six fixed contexts - dead code inside a block followed by live code, dead code in '
                        'either arm of a live if, above extra operands inside/below a value-carrying block, inside a loop nested in a block); each body runs on every input vector; return value, trap and ordered host-call trace are compared with the '
                        'reference; a body is non-trivial iff its reference outcome is not constant over the inputs')
     chk.assumptions += ['bodies longer than the completed N are not covered', 'reference = own interpreter validated against the spec test-suite']
